@@ -90,7 +90,7 @@ class _StubRe:
 
 SENT = ["\x00ID0", "\x00ID1", "\x00ID2"]
 UNKNOWN = "\x00UNKNOWN"
-WILDCARDS = ["pixee:*", "*sql*", "*-imports", "a.b*", "**", "pi*sql", "*"]
+WILDCARDS = ["pixee:*", "*sql*", "*-imports", "a.b*", "**", "pi*sql", "*", "pi*sq*"]
 
 
 def ref_select_include(include, ids, origins, wmatch):
@@ -158,6 +158,43 @@ def _subst(entries, ids):
     return [ids[SENT.index(e)] if e in SENT else ("no-such-codemod" if e == UNKNOWN else e) for e in entries]
 
 
+def _witness_lemma(mode, w):
+    """Witness-based fallback for one wildcard (see primitive_lemmas)."""
+    import re as _re
+
+    glob = symre.glob_star_only(w)
+    prefix = w.split("*")[0]
+    mistaken = []
+    if prefix:
+        mistaken.append(z3.Concat(z3.Re(S(prefix)), z3.Star(IDCHAR)))  # prefix only
+    try:
+        mistaken.append(symre.method_lang(w.replace("*", ".*"), "match", 0))  # unescaped, unanchored at the end
+        mistaken.append(symre.method_lang(w.replace("*", ".*"), "search", 0))
+    except Exception:  # noqa
+        pass
+    queries = [("inside the glob", z3.InRe, None), ("outside the glob", None, None)]
+    ident = z3.String("id")
+    wit, nq = [], 0
+    cases = [z3.InRe(ident, glob), z3.Not(z3.InRe(ident, glob))]
+    cases += [z3.And(z3.InRe(ident, m), z3.Not(z3.InRe(ident, glob))) for m in mistaken]
+    cases += [z3.And(z3.Not(z3.InRe(ident, m)), z3.InRe(ident, glob)) for m in mistaken]
+    for c in cases:
+        sv = z3.Solver()
+        sv.set("timeout", 20000)
+        sv.add(z3.InRe(ident, IDLANG), z3.Length(ident) <= 24, c)
+        nq += 1
+        if str(sv.check()) == "sat":
+            wit.append(sv.model()[ident].as_string())
+    inc, exc = ([w], None) if mode == "include" else (None, [w])
+    for wid in dict.fromkeys(wit):
+        got, exp = _concrete_replay([wid], ["pixee"], inc, exc, False)
+        if got != exp:
+            return dict(verdict="violation", z3_checks=nq, replay=_write_replay("lemma_%s_%d" % (mode, WILDCARDS.index(w)), [wid], ["pixee"], inc, exc, False),
+                        detail="wildcard %r (%s mode, no regex captured): id %r -> real %r, reference %r" % (w, mode, wid, got, exp))
+    return dict(verdict="inconclusive", z3_checks=nq, evaluations=len(wit),
+                detail="the code matched %r without re.compile: language not captured; %d solver-generated witness ids agree with the reference" % (w, len(set(wit))))
+
+
 def primitive_lemmas(tier_name):
     """(a) for each wildcard: L(real pattern, real method) == L(reference glob) on the id domain."""
     recs = []
@@ -173,7 +210,11 @@ def primitive_lemmas(tier_name):
             t0 = time.time()
             rec = {"name": "lemma:%s:%s" % (mode, w), "engine": "E3-z3-regex", "evaluations": 1, "distinct_nontrivial": 1, "z3_checks": 0, "z3_time_s": 0.0}
             if len(Oracle.compiled) != 1:
-                rec.update(verdict="inconclusive", detail="expected exactly one compiled pattern, got %r" % Oracle.compiled)
+                # The code did not go through re.compile for this wildcard (e.g. a str.startswith fast path): the
+                # language cannot be captured.  Fall back to solver-generated WITNESSES: ids inside / outside the
+                # reference glob and inside the usual mistaken readings (prefix only, unescaped metacharacters,
+                # unanchored search) but outside the glob, each run concretely against the real code.
+                rec.update(_witness_lemma(mode, w))
                 recs.append(rec)
                 continue
             pat = Oracle.compiled[0]
@@ -243,6 +284,7 @@ def structure(tier_name):
     n_cfg = n_vec = n_diff = n_q = 0
     zt = 0.0
     violations, samples = [], []
+    uncaptured = 0
     configs = []
     for k in range(1, maxlen + 1):
         for lst in itertools.product(entries, repeat=k):
@@ -266,7 +308,27 @@ def structure(tier_name):
         pats = list(Oracle.compiled)
         wilds = list(dict.fromkeys(e for e in (lst if lst else DEFAULT_EXCLUDED_CODEMODS) if "*" in e))
         if len(pats) != len(wilds):
-            violations.append({"detail": "compiled patterns %r do not correspond to wildcards %r" % (pats, wilds)})
+            # no regex captured for some wildcard: witness cells instead of decision vectors - for every truth
+            # assignment of the REFERENCE globs over the n ids that z3 can realise, run the real code concretely
+            uncaptured += 1
+            if not lst or uncaptured > 24:
+                continue  # default excludes: nothing to vary; beyond 24 configurations the fallback is not extended (stated in the evidence)
+            keys_ref = [(w_, sid) for w_ in wilds for sid in SENT[:n]]
+            for bits in itertools.product([False, True], repeat=len(keys_ref)):
+                tq = time.time()
+                res, model = _feasible(keys_ref, bits, {w_: w_ for w_ in wilds}, n)
+                zt += time.time() - tq
+                n_q += 1
+                if res != "sat":
+                    continue
+                n_vec += 1
+                inc_c, exc_c = (_subst(lst, model), None) if mode == "include" else (None, _subst(lst, model))
+                g2, e2 = _concrete_replay(model, origins, inc_c, exc_c, sast)
+                if g2 != e2:
+                    violations.append({"mode": mode, "list": _subst(lst, model), "ids": model, "origins": origins, "sast_only": sast, "real": g2, "reference": e2})
+                    break
+            if len(violations) >= 5:
+                break
             continue
         wild_of = dict(zip(pats, wilds))
         pat_of = {w: p for p, w in wild_of.items()}
@@ -306,7 +368,7 @@ def structure(tier_name):
         "distinct_nontrivial": n_cfg,
         "z3_checks": n_q,
         "z3_time_s": round(zt, 3),
-        "sample": {"configurations": n_cfg, "vectors": n_vec, "differing_vectors": n_diff, "feasibility_queries": n_q, "examples": samples, "wall_s": round(time.time() - t0, 1)},
+        "sample": {"configurations": n_cfg, "vectors": n_vec, "differing_vectors": n_diff, "feasibility_queries": n_q, "configurations_without_captured_regex": uncaptured, "examples": samples, "wall_s": round(time.time() - t0, 1)},
     }
     if violations:
         v = violations[0]
@@ -318,6 +380,9 @@ def structure(tier_name):
         else:
             rec["verdict"] = "harness_error"
             rec["detail"] = v["detail"]
+    elif uncaptured:
+        rec["verdict"] = "inconclusive"
+        rec["detail"] = "%d configurations matched a wildcard without re.compile: decided on solver-generated witness ids only" % uncaptured
     else:
         rec["verdict"] = "discharged"
     return [rec]
